@@ -245,6 +245,31 @@ func (ix *idxEngine) table() []tableEntry {
 			Reason: "unreachable: the reflection helper is internal and is only called with names of existing fields",
 		},
 		{
+			ID: "T5b reflection sanity checks of the defaults machinery",
+			Match: func(ix *idxEngine, o *idxOb) bool {
+				if o.Kind != "PANIC" || funcPkgPath(o.Fn) != pkgPath("texttable/decoration") {
+					return false
+				}
+				re := ix.populateReflection()
+				return re != nil && re.visited[o.Fn]
+			},
+			Premise: func(ix *idxEngine, o *idxOb) (bool, string) {
+				re := ix.populateReflection()
+				if re == nil {
+					return false, "Populate's reflection could not be evaluated"
+				}
+				okP, seen := re.panicOK[o.In]
+				if !seen {
+					return false, "this panic is not behind a sanity check of a reflect value that Populate's evaluation reached"
+				}
+				if !okP {
+					return false, "the check can fail for the values Populate passes (a name that is not a string field of Decoration, or a value of another kind)"
+				}
+				return true, "in every context Populate reaches it in, the reflect value has the kind the check asks for (pointer to Decoration, its struct, an existing string field)"
+			},
+			Reason: "unreachable: the helpers are internal and only ever handed a non-nil *Decoration and names of existing string fields",
+		},
+		{
 			ID: "T6 divider bookkeeping",
 			Match: func(ix *idxEngine, o *idxOb) bool {
 				// the last-element bookkeeping of the content-line builder: an index or re-slice of a []string at
@@ -592,4 +617,27 @@ func (ix *idxEngine) defaultPairs(fn, def *ssa.Function) ([][2]string, bool, str
 		}
 	}
 	return out, true, ""
+}
+
+// populateReflection: the reflective evaluation of Decoration.Populate, run once.
+func (ix *idxEngine) populateReflection() *reflEval {
+	if ix.reflTried {
+		return ix.reflPanics
+	}
+	ix.reflTried = true
+	c := ix.c
+	dec := c.Named("texttable/decoration", "Decoration")
+	if dec == nil {
+		return nil
+	}
+	pop := c.MethodOpt(dec, true, "Populate")
+	if pop == nil || len(pop.Params) == 0 {
+		return nil
+	}
+	re := ix.newReflEval(dec)
+	if _, ok, _ := re.eventsIn(pop, map[ssa.Value]rabs{ssa.Value(pop.Params[0]): {kind: "dec"}}, 0); !ok {
+		return nil
+	}
+	ix.reflPanics = re
+	return re
 }
